@@ -3,14 +3,15 @@ from . import common as C
 from . import vu
 from .family import Family
 from .srv import SrvFamily
+from .fe import FeFamily
 
-PROPS_MODULES = ["C08", "ConnLoops"]
+PROPS_MODULES = ["C08", "ConnLoops", "C03"]
 RULE = ("family `srv` (frame mode): every implemented request type, written by the raw peer in 2 and 3 segments at every/sampled split "
         "points, byte by byte, and in random segmentations, both with all segments queued before the server reads and with one "
         "segment arriving at a time (the next is written only when the receive queue is empty); every cut offset 0..len of a message "
         "followed by close. family `send`: the crate's send loop on a non-blocking socket with the minimum send buffer, pre-filled so "
         "that writes are accepted partially, drained by a slow reader that records the bytes and which recvmsg carried the descriptors; "
-        "plus the iovec offset helper on all small length lists. non-trivial = distinct scenarios with at least two segments or a cut.")
+        "plus the iovec offset helper on all small length lists. non-trivial = distinct scenarios with at least two segments or a cut. family `fe` (cut mode): the frontend as receiver - every reply-bearing operation (and acknowledged set-operations) answered by the raw peer with the correct reply cut at every byte offset (size field untouched), then the peer closes: the call must return an error, never success, never wait.")
 ASSUMPTIONS = ["signals / ENOMEM appear only as scripted retries in the model", "AF_UNIX stream semantics as modelled in Model/Stream.lean"]
 
 
@@ -96,4 +97,10 @@ class SendFamily(Family):
         return "send:" + (so.split()[1] if so and so.startswith("spec-fail") and len(so.split()) > 1 else "?")
 
 
-FAMILIES = [FrameFamily(), SendFamily()]
+class CutFe(FeFamily):
+    """the frontend as receiver: correct replies cut at every byte offset, then the peer closes"""
+    def nontrivial(self, line, obs):
+        return "then-close" in line or line.rstrip().endswith("r=close")
+
+
+FAMILIES = [FrameFamily(), SendFamily(), CutFe(modes=("cut",), quick=(0, 0, 0), thorough=(0, 0, 0))]
